@@ -108,7 +108,7 @@ theorem pc10 (c : Cfg) (s : St) (h : s.phase = 10) :
     phaseCase c s = { emit s (.unmodelled s.phase) with halted := true } := by phase_simp h
 theorem pc11 (c : Cfg) (s : St) (h : s.phase = 11) :
     phaseCase c s = if (deliver c s).halted then deliver c s else afterPE c (deliver c s) := by phase_simp h
-theorem pc12 (c : Cfg) (s : St) (h : s.phase = 12) : phaseCase c s = afterPE c (sendPass c s) := by phase_simp h
+theorem pc12 (c : Cfg) (s : St) (h : s.phase = 12) : phaseCase c s = afterPE c (sendPassE c s) := by phase_simp h
 theorem pc13 (c : Cfg) (s : St) (h : s.phase = 13) :
     phaseCase c s = match s.resp with
       | some r =>
@@ -375,6 +375,28 @@ theorem sendPass_trace (c : Cfg) (s : St) : Benign s.trace (sendPass c s).trace 
   simp only [sendPass, emit, liftF]
   exact Benign.one _ _ rfl rfl
 
+/-! [proxy8] the event `reset during UpFilter` only raises `upstreamReset` -/
+@[simp] theorem upfEvent_trace (c : Cfg) (s : St) : (upfEvent c s).trace = s.trace := by unfold upfEvent; split <;> rfl
+@[simp] theorem upfEvent_toFState (c : Cfg) (s : St) : (upfEvent c s).toFState = s.toFState := by unfold upfEvent; split <;> rfl
+@[simp] theorem upfEvent_phase (c : Cfg) (s : St) : (upfEvent c s).phase = s.phase := by unfold upfEvent; split <;> rfl
+@[simp] theorem upfEvent_inner (c : Cfg) (s : St) : (upfEvent c s).inner = s.inner := by unfold upfEvent; split <;> rfl
+@[simp] theorem upfEvent_outer (c : Cfg) (s : St) : (upfEvent c s).outer = s.outer := by unfold upfEvent; split <;> rfl
+@[simp] theorem upfEvent_halted (c : Cfg) (s : St) : (upfEvent c s).halted = s.halted := by unfold upfEvent; split <;> rfl
+@[simp] theorem upfEvent_exhausted (c : Cfg) (s : St) : (upfEvent c s).exhausted = s.exhausted := by unfold upfEvent; split <;> rfl
+@[simp] theorem upfEvent_blocked (c : Cfg) (s : St) : (upfEvent c s).blocked = s.blocked := by unfold upfEvent; split <;> rfl
+@[simp] theorem upfEvent_procDone (c : Cfg) (s : St) : (upfEvent c s).procDone = s.procDone := by unfold upfEvent; split <;> rfl
+@[simp] theorem upfEvent_upReq (c : Cfg) (s : St) : (upfEvent c s).upReq = s.upReq := by unfold upfEvent; split <;> rfl
+@[simp] theorem upfEvent_rs (c : Cfg) (s : St) : (upfEvent c s).rs = s.rs := by unfold upfEvent; split <;> rfl
+@[simp] theorem upfEvent_retried (c : Cfg) (s : St) : (upfEvent c s).retried = s.retried := by unfold upfEvent; split <;> rfl
+@[simp] theorem upfEvent_again (c : Cfg) (s : St) : (upfEvent c s).again = s.again := by unfold upfEvent; split <;> rfl
+
+theorem sendPassE_again (c : Cfg) (s : St) : (sendPassE c s).again = s.again := by
+  simp [sendPassE, sendPass_again]
+theorem sendPassE_phase (c : Cfg) (s : St) : (sendPassE c s).phase = s.phase := by
+  simp [sendPassE, sendPass_phase]
+theorem sendPassE_trace (c : Cfg) (s : St) : Benign s.trace (sendPassE c s).trace := by
+  simp only [sendPassE, upfEvent_trace]; exact sendPass_trace c s
+
 theorem respHeaders_again (s : St) (r : Resp) : (respHeaders s r).again = s.again := by
   unfold respHeaders; split <;> (try split) <;> rfl
 theorem respHeaders_phase (s : St) (r : Resp) : (respHeaders s r).phase = s.phase := by
@@ -411,6 +433,8 @@ theorem deliver_trace (c : Cfg) (s : St) : (deliver c s).trace = s.trace := by
 
 theorem sendPass_rs (c : Cfg) (s : St) : (sendPass c s).rs = s.rs ∧ (sendPass c s).retried = s.retried := by
   simp [sendPass, emit, liftF]
+theorem sendPassE_rs (c : Cfg) (s : St) : (sendPassE c s).rs = s.rs ∧ (sendPassE c s).retried = s.retried := by
+  simp [sendPassE, sendPass, emit, liftF]
 theorem respHeaders_rs (s : St) (r : Resp) : (respHeaders s r).rs = s.rs ∧ (respHeaders s r).retried = s.retried := by
   unfold respHeaders; split <;> (try split) <;> exact ⟨rfl, rfl⟩
 theorem respData_rs (s : St) (r : Resp) : (respData s r).rs = s.rs ∧ (respData s r).retried = s.retried := by
@@ -450,7 +474,7 @@ theorem phaseCase_back (c : Cfg) (s : St) (ha : s.again = InitPhase) (hp : DownR
     · exact back_via c s _ (deliver_again c s) (deliver_phase c s) (by rw [deliver_trace]; exact Benign.refl _) ha hp'
         (deliver_rs c s).1 (deliver_rs c s).2
   · rw [pc12 c s h]
-    exact back_via c s _ (sendPass_again c s) (sendPass_phase c s) (sendPass_trace c s) ha hp' (sendPass_rs c s).1 (sendPass_rs c s).2
+    exact back_via c s _ (sendPassE_again c s) (sendPassE_phase c s) (sendPassE_trace c s) ha hp' (sendPassE_rs c s).1 (sendPassE_rs c s).2
   · rw [pc13 c s h]; split
     · split
       · rename_i hq
@@ -959,10 +983,10 @@ theorem phaseCase_shape (c : Cfg) (s : St) : NoPass s (phaseCase c s) ∨ OnePas
     · exact NoPass.via c hd
   · rw [pc12 c s h]; left
     apply NoPass.via
-    refine ⟨⟨[.spass s.scursor (runSend c.send s.toFState).2], by simp [sendPass, emit, liftF], by simp [isRpass]⟩, ?_, ?_, ?_⟩
-    · simp [sendPass, emit, liftF, runSend, (sendLoop_cursor _ _ _).1]
-    · simp [sendPass, emit, liftF, runSend, (sendLoop_cursor _ _ _).2.1]
-    · simp [sendPass, emit, liftF, runSend, (sendLoop_cursor _ _ _).2.2]
+    refine ⟨⟨[.spass s.scursor (runSend c.send s.toFState).2], by simp [sendPassE, sendPass, emit, liftF], by simp [isRpass]⟩, ?_, ?_, ?_⟩
+    · simp [sendPassE, sendPass, emit, liftF, runSend, (sendLoop_cursor _ _ _).1]
+    · simp [sendPassE, sendPass, emit, liftF, runSend, (sendLoop_cursor _ _ _).2.1]
+    · simp [sendPassE, sendPass, emit, liftF, runSend, (sendLoop_cursor _ _ _).2.2]
   · rw [pc13 c s h]; left; split
     · split
       · obtain ⟨h1, h2, h3, h4, _⟩ := afterPEd_true_frame c s
